@@ -87,9 +87,16 @@ def template_of(e, resolve=None, const=None, depth=0):
         return _merge(parts)
     if isinstance(e, ast.Call) and isinstance(e.func, ast.Attribute) and e.func.attr == "format":
         fmt = _lit(e.func.value, resolve, const)
-        if fmt is None or any(isinstance(a, ast.Starred) for a in e.args) or any(k.arg is None for k in e.keywords):
+        if fmt is None or any(isinstance(a, ast.Starred) for a in e.args):
             return None
-        kw = {k.arg: k.value for k in e.keywords}
+        kw = {}
+        for k in e.keywords:
+            if k.arg is not None:
+                kw[k.arg] = k.value
+            elif isinstance(k.value, ast.Dict) and all(isinstance(x, ast.Constant) and isinstance(x.value, str) for x in k.value.keys):
+                kw.update({x.value: v for x, v in zip(k.value.keys, k.value.values)})   # .format(**{"name": value})
+            else:
+                return None
         parts, pos, auto = [], 0, 0
         for m in _BRACE.finditer(fmt):
             parts.append(fmt[pos:m.start()])
